@@ -86,7 +86,14 @@ Theorem C05_failed_dependency_never_runs_parallel :
 Proof. exact parallel_bad_dep_never_runs. Qed.
 Print Assumptions C05_failed_dependency_never_runs_parallel.
 
-(* NOT PROVED here: failure_removed for the parallel runners (correspondence + oracle); dependencies
+Theorem C05_failure_removed_parallel :
+  forall tasks wake_rank calc_rank continue_ always proc fuel nprocs sched selection pre k kind post,
+    proj (fst (run_parallel tasks wake_rank calc_rank continue_ always proc fuel nprocs sched selection)) = pre ++ EFailure k kind :: post ->
+    exists pre', pre = pre' ++ [ERemove k].
+Proof. exact parallel_failure_removed. Qed.
+Print Assumptions C05_failure_removed_parallel.
+
+(* NOT PROVED here: dependencies
    that only exist through calc_dep results are covered at the state level (deps_recd in
    Proofs/DispatchInv.v: every dependency of the node, dynamic ones included, is recorded before the
    hand-over) but the trace-level statements above speak of the declared ones; that NOTHING reaches the
